@@ -11,6 +11,18 @@ def frange(e, cache=None, atom=None):
     """(lo, hi, may_nan).  `atom(node)` may supply ranges for input atoms."""
     if cache is None:
         cache = {}
+    if atom is None:
+        atom = _DYN_ATOM[0]
+    saved = _DYN_ATOM[0]
+    _DYN_ATOM[0] = atom
+    try:
+        return _frange(e, cache, atom)
+    finally:
+        _DYN_ATOM[0] = saved
+
+_DYN_ATOM = [None]
+
+def _frange(e, cache, atom):
     def mul(a, b):
         ps = []
         for x in (a[0], a[1]):
@@ -85,6 +97,10 @@ def frange(e, cache=None, atom=None):
             if a[2]: lo, hi = min(lo, b[0]), max(hi, b[1])
             if b[2]: lo, hi = min(lo, a[0]), max(hi, a[1])
             r = (lo, hi, a[2] and b[2])
+        elif op == 'call:copysign':
+            a, b = rec(n.args[0]), rec(n.args[1])
+            m = max(abs(a[0]), abs(a[1]))
+            r = (-m, m, a[2])
         elif op == 'call:abs':
             a = rec(n.args[0])
             lo = 0.0 if a[0] <= 0 <= a[1] else min(abs(a[0]), abs(a[1]))
@@ -98,17 +114,49 @@ def frange(e, cache=None, atom=None):
         elif op == 'cast':
             a = rec(n.args[0])
             if X.is_float(n.ty):
-                r = (round_down(a[0]), round_up(a[1]), a[2])
+                if X.is_float(n.args[0].ty) and n.args[0].ty[1] <= n.ty[1]:
+                    r = a
+                else:
+                    mx = 3.4028234663852886e38 if n.ty[1] == 32 else 1.7976931348623157e308
+                    lo, hi = round_down(a[0]), round_up(a[1])
+                    if lo < -mx: lo = -INF
+                    if hi > mx: hi = INF
+                    r = (lo, hi, a[2])
             else:
                 lo, hi = X.int_range(n.ty)
                 r = (max(float(lo), a[0]) if a[0] == a[0] else float(lo), min(float(hi), a[1]), False)
+        elif op == 'cast:bits' and X.is_float(n.ty):
+            from .ranges import int_bounds
+            lo, hi = int_bounds(n.args[0])
+            top_finite = 0x7f7fffff if n.ty[1] == 32 else 0x7fefffffffffffff
+            infbits = top_finite + 1
+            if lo is not None and hi is not None and 0 <= lo and hi <= infbits:
+                r = (X.bitsf(n.ty, lo), X.bitsf(n.ty, hi), False)
+            else:
+                r = TOP
+        elif op == 'app':
+            r = app_range(n, rec, atom) if APP_HOOK[0] is None else APP_HOOK[0](n, rec)
         elif op in ('icast', 'wrap'):
             from .ranges import int_bounds
             lo, hi = int_bounds(n)
             r = (float(lo), float(hi), False)
         elif op == 'select':
-            a, b = rec(n.args[1]), rec(n.args[2])
-            r = (min(a[0], b[0]), max(a[1], b[1]), a[2] or b[2])
+            c = n.args[0]
+            ra, rb = refine_by_cond(c, rec)
+            def branch(node, ov):
+                if ov is None:
+                    return None            # branch infeasible
+                if not ov:
+                    return rec(node)
+                sub = dict(ov)             # fresh cache: only the refined node(s); atoms through the hook
+                return _frange(node, sub, atom)
+            a, b = branch(n.args[1], ra), branch(n.args[2], rb)
+            if a is None and b is None: r = TOP
+            elif a is None: r = b
+            elif b is None: r = a
+            else: r = (min(a[0], b[0]), max(a[1], b[1]), a[2] or b[2])
+        elif op.startswith('call:libm_'):
+            r = libm_range(op[10:], [rec(x) for x in n.args])
         elif X.is_int(n.ty):
             from .ranges import int_bounds
             lo, hi = int_bounds(n)
@@ -121,7 +169,188 @@ def frange(e, cache=None, atom=None):
 
 def round_down(x):
     if x != x or abs(x) == INF: return x
-    return x - abs(x) * 2.0 ** -22 - 1e-300
+    return x - abs(x) * 2.0 ** -22
 def round_up(x):
     if x != x or abs(x) == INF: return x
-    return x + abs(x) * 2.0 ** -22 + 1e-300
+    return x + abs(x) * 2.0 ** -22
+
+APP_HOOK = [None]
+_APP_CACHE = {}
+CRATE = [None]
+
+def app_range(n, rec, atom):
+    """range of an application node: the helper body analysed on the argument ranges, with
+    adaptive (binade-wise) splitting of the single non-constant argument"""
+    crate = CRATE[0]
+    if crate is None:
+        return TOP
+    key = n.args[0]
+    formals, body, _ = crate._apps[key]
+    args = n.args[1:]
+    rs = [rec(a) for a in args]
+    var = [i for i, r in enumerate(rs) if r[0] != r[1] or r[2]]
+    ck = (key, tuple((round(r[0], 12) if abs(r[0]) != INF else r[0], round(r[1], 12) if abs(r[1]) != INF else r[1], r[2]) for r in rs))
+    if ck in _APP_CACHE:
+        return _APP_CACHE[ck]
+    pivots = find_pivots(body)
+    def ev(ranges):
+        def at(node):
+            for f, r in zip(formals, ranges):
+                if node is f:
+                    return r
+            return None
+        return frange(body, None, at)
+    if len(var) != 1 or rs[var[0]][2]:
+        out = ev(rs)
+    else:
+        i = var[0]
+        lo, hi, _ = rs[i]
+        pieces = split_binades(lo, hi)
+        res = []
+        for (a, b) in pieces:
+            res.append(refine(ev, rs, i, a, b, 0))
+        out = (min(r[0] for r in res), max(r[1] for r in res), any(r[2] for r in res))
+    _APP_CACHE[ck] = out
+    return out
+
+def refine(ev, rs, i, a, b, depth):
+    r = ev([x if j != i else (a, b, False) for j, x in enumerate(rs)])
+    wide = (r[1] - r[0]) > max(1e-2, 0.05 * max(abs(r[0]), abs(r[1]))) if (abs(r[0]) != INF and abs(r[1]) != INF) else True
+    if (r[2] or wide) and depth < 5 and b > a:
+        m = (a + b) / 2
+        if m in (a, b):
+            return r
+        r1 = refine(ev, rs, i, a, m, depth + 1); r2 = refine(ev, rs, i, m, b, depth + 1)
+        return (min(r1[0], r2[0]), max(r1[1], r2[1]), r1[2] or r2[2])
+    return r
+
+def split_binades(lo, hi):
+    """cover [lo, hi] by zero, and by binade intervals [2^k, 2^(k+1)] on each side"""
+    import math
+    if abs(lo) == INF or abs(hi) == INF:
+        return [(lo, hi)]
+    pts = set([lo, hi])
+    if lo <= 0 <= hi: pts.add(0.0)
+    for sign in (1, -1):
+        for k in range(-150, 129):
+            v = sign * 2.0 ** k
+            if lo < v < hi: pts.add(v)
+    ps = sorted(pts)
+    out = []
+    import numpy as np
+    for a, b in zip(ps, ps[1:]):
+        # open at the binade boundary where the exponent field changes (the boundary points are
+        # covered as singletons below); predecessors/successors taken in binary32
+        a2 = float(np.nextafter(np.float32(a), np.float32(np.inf))) if a < 0 else a
+        b2 = float(np.nextafter(np.float32(b), np.float32(-np.inf))) if b > 0 else b
+        if a2 <= b2:
+            out.append((a2, b2))
+    for p in ps:
+        out.append((p, p))
+    return out
+
+def refine_by_cond(c, rec):
+    """cache overrides for the then / else branch of a select on a simple float comparison
+    (node vs constant).  {} = no refinement, None = branch infeasible."""
+    import math
+    neg = False
+    while c.op == 'bnot':
+        c = c.args[0]; neg = not neg
+    if c.op not in ('lt', 'le', 'gt', 'ge') or not X.is_float(c.args[0].ty):
+        return {}, {}
+    a, b = c.args
+    op = c.op
+    if a.is_const and not b.is_const:
+        a, b = b, a
+        op = {'lt': 'gt', 'le': 'ge', 'gt': 'lt', 'ge': 'le'}[op]
+    if not b.is_const or a.is_const:
+        return {}, {}
+    k = b.val
+    lo, hi, nan = rec(a)
+    def clip(l, h, keep_nan):
+        if l > h:
+            return None
+        return {a.id: (l, h, keep_nan)}
+    if op in ('lt', 'le'):
+        t_ = clip(lo, min(hi, k), False)           # comparison true => not NaN
+        f_ = clip(max(lo, k), hi, nan)
+    else:
+        t_ = clip(max(lo, k), hi, False)
+        f_ = clip(lo, min(hi, k), nan)
+    if t_ is None and not nan: pass
+    if neg:
+        t_, f_ = f_, t_
+    return t_, f_
+
+def libm_range(name, a):
+    import math
+    x = a[0]
+    lo, hi, nan = x
+    def mono(f, lo, hi):
+        return (round_down(f(lo)), round_up(f(hi)))
+    try:
+        if name in ('ln', 'log10', 'log2'):
+            f = {'ln': math.log, 'log10': math.log10, 'log2': math.log2}[name]
+            if hi < 0: return TOP
+            l = -INF if lo <= 0 else f(lo)
+            h = -INF if hi <= 0 else (INF if hi == INF else f(hi))
+            return (round_down(l), round_up(h), nan or lo < 0)
+        if name == 'exp':
+            l = 0.0 if lo == -INF else (math.exp(lo) if lo < 700 else INF)
+            h = INF if hi > 700 else math.exp(hi)
+            return (round_down(l), round_up(h), nan)
+        if name == 'cbrt':
+            f = lambda v: math.copysign(abs(v) ** (1 / 3), v) if abs(v) != INF else v
+            return (round_down(f(lo)), round_up(f(hi)), nan)
+        if name == 'powf':
+            y = a[1]
+            if lo >= 0 and y[0] == y[1] and not y[2]:
+                e = y[0]
+                f = lambda v: (v ** e if v != INF else (INF if e > 0 else 0.0)) if not (v == 0 and e < 0) else INF
+                c = sorted([f(lo), f(hi)])
+                return (round_down(c[0]), round_up(c[1]), nan)
+    except (OverflowError, ValueError):
+        pass
+    return TOP
+
+def find_pivots(body):
+    """float nodes P feeding a float->int truncation as  trunc(P - c)  or  trunc(P): the
+    truncation is discontinuous in P, so P's range is split at the jump points and the
+    rest of the expression evaluated per piece (disjunctive refinement)."""
+    piv = []
+    seen = set()
+    for n in X.walk(body):
+        if n.op == 'ftoi_unchecked' or (n.op == 'cast' and X.is_int(n.ty) and n.args and X.is_float(n.args[0].ty)):
+            a = n.args[0]
+            c = 0.0
+            if a.op == 'fsub' and a.args[1].is_const:
+                c = a.args[1].val; a = a.args[0]
+            elif a.op == 'fadd' and a.args[1].is_const:
+                c = -a.args[1].val; a = a.args[0]
+            if a.id not in seen and not a.is_const:
+                seen.add(a.id); piv.append((a, c))
+    return piv      # walk is post-order: inner pivots come first
+
+def eval_with_pivots(body, pivots, at, max_pieces=600):
+    import math
+    import numpy as np
+    def go(i, overrides):
+        if i == len(pivots):
+            return _frange(body, dict(overrides), at)
+        P, c = pivots[i]
+        lo, hi, nan = _frange(P, dict(overrides), at)
+        if nan or abs(lo) == INF or abs(hi) == INF or hi - lo > max_pieces:
+            return go(i + 1, overrides)
+        k0 = math.floor(lo - c); k1 = math.floor(hi - c)
+        res = []
+        for k in range(k0, k1 + 1):
+            a = max(lo, k + c)
+            b = min(hi, float(np.nextafter(np.float32(k + 1 + c), np.float32(-np.inf))))
+            if a > b:
+                continue
+            ov = dict(overrides); ov[P.id] = (a, b, False)
+            res.append(go(i + 1, ov))
+        if not res:
+            return go(i + 1, overrides)
+        return (min(r[0] for r in res), max(r[1] for r in res), any(r[2] for r in res))
+    return go(0, {})
